@@ -1,6 +1,7 @@
 import Tea.Proofs.RenderBytes
 import Tea.Proofs.PaintSources
 import Tea.Render.Fps
+import Tea.Proofs.Ticker
 /-
 C19 — Rendering is economical: no change, no output; bounded frame rate.
 
@@ -469,5 +470,21 @@ example : paints (step (write r0 [120]) .enterAlt).2 = false := by decide
 
 example : clampFPS 0 = 60 ∧ clampFPS 30 = 30 ∧ clampFPS 1000 = 120 ∧ clampFPS (-5) = 60 := by decide
 example : framerateNs 60 = 16666666 ∧ framerateNs 120 = 8333333 ∧ framerateNs 1 = 1000000000 := by decide
+
+/-! ### one ticker, one listener (`Tea/Render/Ticker.lean`)
+
+"At most one render happens per frame interval" also needs that a renderer which is halted and
+restarted any number of times (Exec, Suspend, ReleaseTerminal / RestoreTerminal, a second `start`)
+never ends up with TWO listeners on its ticker - each tick would then be rendered by one of them
+and, with a tick buffered for each, frames could come in pairs. -/
+open Tea.Render.Ticker in
+/-- every interleaving of `start` / `halt` calls with the listener goroutines: at most one listener
+waits for the ticker -/
+theorem C19_single_listener (s : St) (h : Reach stepNew s) : waiting s ≤ 1 := by
+  rw [(inv_reach s h).2]; split <;> omega
+
+open Tea.Render.Ticker in
+/-- `start` twice in a row (RestoreTerminal twice) does not add a listener -/
+example : (runWith stepNew {} [.start, .start, .halt 0, .after 0, .start, .start]).map waiting = some 1 := by decide
 
 end Tea.Props.C19
